@@ -86,60 +86,92 @@ def compose(parts, header=(), final_newline=True):
     return "\n".join(lines) + ("\n" if final_newline else "")
 
 
-def chance(draw, k, n):
-    """True with probability k/n (sampled_from, because Hypothesis' integers() favour the boundary values)."""
-    return draw(st.sampled_from([True] * k + [False] * (n - k)))
+class Picker:
+    """Procedural choices for one scenario, a deterministic function of ONE Hypothesis-drawn integer (``seeds()``).
+
+    Why not one Hypothesis pick per choice: Hypothesis starts every run from the minimal example and favours small /
+    boundary values, so with a dozen expensive cases per shard all 16 shards would begin with the same scenario and the
+    'rare' options would be anything but rare.  The generated case itself (not the seed) is what is stored and replayed.
+    """
+
+    def __init__(self, seed):
+        import random
+
+        self.r = random.Random(int(seed))
+
+    def choice(self, seq):
+        seq = list(seq)
+        return seq[self.r.randrange(len(seq))]
+
+    def chance(self, k, n):
+        return self.r.randrange(n) < k
+
+    def randint(self, a, b):
+        return self.r.randint(a, b)
+
+    def sample(self, seq, k):
+        return self.r.sample(list(seq), k)
+
+
+def seeds():
+    return st.integers(min_value=0, max_value=2 ** 48 - 1)
+
+
+def scenarios(fn):
+    """Hypothesis strategy of scenarios: fn(Picker) -> case dict."""
+    return seeds().map(lambda s: fn(Picker(s)))
 
 
 ERROR_WEIGHTS = {"prs": 3, "tmp": 3, "tmp+prs": 1, "prs-notree": 1, "tmp-notree": 1}
 
 
-@st.composite
-def content(draw, errors="some", noqa="some", inline=False, max_parts=4, classes=None, error_weights=None):
+def content(pick, errors="some", noqa="some", inline=False, max_parts=4, classes=None, error_weights=None):
     """-> (sql, piece names, header kind).
 
     errors: "none" | "some" (about half the files carry a PRS/TMP piece) | "always"
     noqa:   "none" | "some" | "errors" (only the PRS/TMP pieces get noqa comments, and usually do)
     inline: allow an in-file ``-- sqlfluff:`` directive as first line
     """
-    templater_jinja = draw(st.booleans()) if errors != "none" else True
+    templater_jinja = pick.chance(1, 2) if errors != "none" else True
     lint_classes = list(classes or ("clean", "fixable", "fixable", "multipass", "unfixable"))
-    n = draw(st.integers(1, max_parts))
+    n = pick.randint(1, max_parts)
     parts = []
     for _ in range(n):
-        cls = draw(st.sampled_from(lint_classes))
-        parts.append(draw(st.sampled_from(BY_CLASS[cls])))
+        cls = pick.choice(lint_classes)
+        parts.append(pick.choice(BY_CLASS[cls]))
     want_err = {"none": False, "always": True}.get(errors)
     if want_err is None:
-        want_err = draw(st.booleans())
+        want_err = pick.chance(1, 2)
     if want_err:
         ecls = [c for c, w in (error_weights or ERROR_WEIGHTS).items() for _ in range(w)
                 if templater_jinja or c not in JINJA_ONLY]
-        for _ in range(draw(st.sampled_from([1, 1, 1, 2]))):
-            e = draw(st.sampled_from(BY_CLASS[draw(st.sampled_from(ecls))]))
-            parts.insert(draw(st.integers(0, len(parts))), e)
+        for _ in range(pick.choice([1, 1, 1, 2])):
+            e = pick.choice(BY_CLASS[pick.choice(ecls)])
+            # an unparsable statement swallows everything after it (one unparsable section up to the end of the
+            # file), so the error piece mostly goes last: the statements before it keep their lint violations
+            parts.insert(len(parts) if pick.chance(2, 3) else pick.randint(0, len(parts)), e)
     out = []
     for p in parts:
         is_err = PIECES[p][1] in ERROR_CLASSES
         form = None
         if noqa == "some":
             if is_err:
-                form = draw(st.sampled_from([None, None, "", "PRS", "TMP", "PRS,TMP", "LT01"]))
+                form = pick.choice([None, None, "", "PRS", "TMP", "PRS,TMP", "LT01"])
             else:
-                form = draw(st.sampled_from([None, None, None, None] + NOQA_FORMS[1:]))
+                form = pick.choice([None, None, None, None] + NOQA_FORMS[1:])
         elif noqa == "errors" and is_err:
-            form = draw(st.sampled_from([None, "", "PRS", "TMP", "PRS,TMP", "PRS,TMP"]))
+            form = pick.choice([None, "", "PRS", "TMP", "PRS,TMP", "PRS,TMP"])
         out.append((p, form))
     header = []
     hkind = None
-    if noqa != "none" and chance(draw, 1, 10):
-        hkind = draw(st.sampled_from(["disable=all", "disable=PRS", "disable=PRS,TMP", "disable=LT01"]))
+    if noqa != "none" and pick.chance(1, 10):
+        hkind = pick.choice(["disable=all", "disable=PRS", "disable=PRS,TMP", "disable=LT01"])
         header.append("-- noqa: " + hkind)
-    if inline and chance(draw, 1, 4):
-        d = draw(st.sampled_from(INLINE_DIRECTIVES))
+    if inline and pick.chance(1, 4):
+        d = pick.choice(INLINE_DIRECTIVES)
         header.append("-- sqlfluff:" + d)
         hkind = (hkind + "+" if hkind else "") + "inline:" + d
-    sql = compose(out, header, final_newline=not chance(draw, 1, 8))
+    sql = compose(out, header, final_newline=not pick.chance(1, 8))
     names = [p + ("" if f is None else "+noqa:" + (f or "all")) for p, f in out]
     return sql, names, hkind, templater_jinja
 
@@ -164,49 +196,48 @@ IGNORES = [None, None, "parsing", "templating", "parsing,templating", "linting",
 DIALECTS = ["ansi", "ansi", "ansi", "postgres", "sqlite", "duckdb", "bigquery"]
 
 
-@st.composite
-def core_cfg(draw, warnings=True, ignore=True, feu=False, runaway=False, disable_noqa=False, templater_jinja=True):
-    cfg = {"dialect": draw(st.sampled_from(DIALECTS))}
+def core_cfg(pick, warnings=True, ignore=True, feu=False, runaway=False, disable_noqa=False, templater_jinja=True,
+             rule_sets=None, excludes=None):
+    cfg = {"dialect": pick.choice(DIALECTS)}
     if not templater_jinja:
         cfg["templater"] = "raw"
-    r = draw(st.sampled_from(RULE_SETS))
+    r = pick.choice(rule_sets or RULE_SETS)
     if r:
         cfg["rules"] = r
-    e = draw(st.sampled_from(EXCLUDES))
+    e = pick.choice(excludes or EXCLUDES)
     if e:
         cfg["exclude_rules"] = e
     if warnings:  # True = default pool, or an explicit pool
-        w = draw(st.sampled_from(WARNINGS if warnings is True else list(warnings)))
+        w = pick.choice(WARNINGS if warnings is True else list(warnings))
         if w:
             cfg["warnings"] = w
     if ignore:
-        i = draw(st.sampled_from(IGNORES if ignore is True else list(ignore)))
+        i = pick.choice(IGNORES if ignore is True else list(ignore))
         if i:
             cfg["ignore"] = i
-    if feu and chance(draw, 1, 8):
+    if feu and pick.chance(1, 8):
         cfg["fix_even_unparsable"] = True
-    if runaway and chance(draw, 1, 4):
-        cfg["runaway_limit"] = draw(st.sampled_from([1, 2]))
-    if disable_noqa and chance(draw, 1, 12):
+    if runaway and pick.chance(1, 4):
+        cfg["runaway_limit"] = pick.choice([1, 2])
+    if disable_noqa and pick.chance(1, 12):
         cfg["disable_noqa"] = True
     return cfg
 
 
-@st.composite
-def sub_cfg(draw, warnings=True, ignore=True):
+def sub_cfg(pick, warnings=True, ignore=True):
     """Settings of a nested sub/.sqlfluff (only things that may legitimately differ per directory)."""
     cfg = {}
-    k = draw(st.sampled_from(["rules", "exclude_rules", "warnings", "ignore", "dialect", "rules+warnings"]))
+    k = pick.choice(["rules", "exclude_rules", "warnings", "ignore", "dialect", "rules+warnings"])
     if "rules" in k.split("+"):
-        cfg["rules"] = draw(st.sampled_from([r for r in RULE_SETS if r]))
+        cfg["rules"] = pick.choice([r for r in RULE_SETS if r])
     if k == "exclude_rules":
-        cfg["exclude_rules"] = draw(st.sampled_from([e for e in EXCLUDES if e]))
+        cfg["exclude_rules"] = pick.choice([e for e in EXCLUDES if e])
     if "warnings" in k.split("+") and warnings:
-        cfg["warnings"] = draw(st.sampled_from([w for w in WARNINGS if w]))
+        cfg["warnings"] = pick.choice([w for w in WARNINGS if w])
     if k == "ignore" and ignore:
-        cfg["ignore"] = draw(st.sampled_from([i for i in IGNORES if i]))
+        cfg["ignore"] = pick.choice([i for i in IGNORES if i])
     if k == "dialect":
-        cfg["dialect"] = draw(st.sampled_from(DIALECTS))
+        cfg["dialect"] = pick.choice(DIALECTS)
     return cfg or {"exclude_rules": "LT01"}
 
 
